@@ -1,13 +1,26 @@
-/* C02 allocator (same interface as harness/common/valloc.c, used INSTEAD of it by the
- * jobs that list it in `support`).  Difference: growing an existing block
- * (realloc(p != NULL, n > 0)) is either
- *   - ruled out:  default; reaching it trips a BOUND assertion (inconclusive, never
- *     a violation) and the path is cut, so symbolic execution does not have to copy
- *     between two symbolic blocks.  Used where the job's sizes make growth
- *     impossible (e.g. a decoded name shorter than the first 32-byte allocation); the
- *     BOUND assertion proves that.
- *   - or copies a CONSTANT number of bytes (-DC02_GROW_COPY=k: old size must be <= k).
- * -DVP_SIZES as in valloc.c. */
+/* C02 allocator (same interface as harness/common/valloc.c; used INSTEAD of it by the
+ * name-decoder output-mode jobs, which list it in `support`).
+ *
+ * Why: ares_buf grows its data block only through ares_realloc().  In output mode every
+ * append of ares_dns_name_parse is conditional on input bytes, so with the common allocator
+ *   (1) each unwound append call site contributes its own malloc object to the value set of
+ *       namebuf->alloc_buf, and every later write case-splits over all of them, and
+ *   (2) the "grow an existing block" path (copy between two symbolic blocks) is explored
+ *       at every append.
+ * Measured: no progress of symbolic execution in 200 s even for a 1-byte name.
+ *
+ * Here:
+ *   - realloc(NULL, n) - the FIRST growth step of an ares_buf - must have n == 32 and returns
+ *     one of C02_POOL32 (default 1) blocks that vp_alloc_install() allocated eagerly, in
+ *     order; a different n or more requests than blocks trips a BOUND (inconclusive, never a
+ *     violation).  The blocks are ordinary malloc(32) objects: bounds, free, double free,
+ *     use-after-free and leak checks apply unchanged; c02_pool_teardown() (call it last in
+ *     the harness) frees the blocks that were never handed out.
+ *   - realloc(p != NULL, n > 0) (growth beyond 32 bytes) trips a BOUND and the path is cut:
+ *     the job's sizes must make it impossible (decoded text < 31 characters), and the BOUND
+ *     assertion proves that it is.
+ *   - malloc(n): passed through (all such sizes are concrete in these jobs).
+ * Native replay builds use plain malloc/realloc. */
 #include "vp.h"
 #include <stdlib.h>
 #include <string.h>
@@ -16,55 +29,45 @@ unsigned long vp_alloc_calls   = 0;
 unsigned long vp_alloc_fail_at = 0;
 long          vp_alloc_live    = 0;
 
+#ifndef C02_POOL32
+#  define C02_POOL32 1
+#endif
+
 #ifdef VP_NATIVE
-typedef struct {
-  size_t n;
-  size_t pad;
-} vp_hdr_t;
-static void *raw_alloc(size_t n)
+void *vp_malloc(size_t n)
 {
-  vp_hdr_t *h = malloc(sizeof(*h) + n);
-  if (h == NULL)
+  void *p = malloc(n ? n : 1);
+  if (p == NULL)
     abort();
-  h->n = n;
-  return h + 1;
-}
-static size_t raw_size(void *p) { return ((vp_hdr_t *)p - 1)->n; }
-static void   raw_free(void *p) { free((vp_hdr_t *)p - 1); }
-#else
-static void *raw_alloc(size_t n)
-{
-  void *p;
-#  ifdef VP_SIZES
-  static const size_t sizes[] = { VP_SIZES };
-  size_t              i;
-  p = NULL;
-  for (i = 0; i < sizeof(sizes) / sizeof(*sizes); i++) {
-    if (n == sizes[i]) {
-      p = malloc(sizes[i]);
-      break;
-    }
-  }
-  VP_BOUND(i < sizeof(sizes) / sizeof(*sizes), "allocation size outside VP_SIZES");
-#  else
-  p = malloc(n);
-#  endif
-  __CPROVER_assume(p != NULL);
   return p;
 }
-static size_t raw_size(void *p) { return __CPROVER_OBJECT_SIZE(p); }
-static void   raw_free(void *p) { free(p); }
-#endif
+void  vp_free(void *p) { free(p); }
+void *vp_realloc(void *p, size_t n)
+{
+  if (n == 0) {
+    free(p);
+    return NULL;
+  }
+  p = realloc(p, n);
+  if (p == NULL)
+    abort();
+  return p;
+}
+void c02_pool_teardown(void) {}
+#else
+static void  *c02_pool[C02_POOL32];
+static size_t c02_pool_next;
 
 void *vp_malloc(size_t n)
 {
+  void *p;
   vp_alloc_calls++;
-  if (vp_alloc_fail_at != 0 && vp_alloc_calls == vp_alloc_fail_at)
-    return NULL;
   if (n == 0)
     n = 1;
   vp_alloc_live++;
-  return raw_alloc(n);
+  p = malloc(n);
+  __CPROVER_assume(p != NULL);
+  return p;
 }
 
 void vp_free(void *p)
@@ -72,47 +75,49 @@ void vp_free(void *p)
   if (p == NULL)
     return;
   vp_alloc_live--;
-  raw_free(p);
+  free(p);
 }
 
 void *vp_realloc(void *p, size_t n)
 {
-  void  *q;
-  size_t old;
-  size_t i;
-  if (p == NULL)
-    return vp_malloc(n);
+  size_t k;
+  void  *q = NULL;
   if (n == 0) {
     vp_free(p);
     return NULL;
   }
-#if !defined(VP_NATIVE) && !defined(C02_GROW_COPY)
-  VP_BOUND(0, "realloc of a live block (growth) is outside this job's sizes");
-  return NULL;
-#else
+  VP_BOUND(p == NULL, "growing a live block (decoded text longer than the first 32-byte block) is outside this job");
+  VP_BOUND(n == 32, "first ares_buf block is 32 bytes");
+  VP_BOUND(c02_pool_next < C02_POOL32, "more ares_buf data blocks requested than C02_POOL32");
+  for (k = 0; k < C02_POOL32; k++)
+    if (k == c02_pool_next)
+      q = c02_pool[k];
+  c02_pool_next++;
   vp_alloc_calls++;
-  if (vp_alloc_fail_at != 0 && vp_alloc_calls == vp_alloc_fail_at)
-    return NULL;
-  old = raw_size(p);
-  q   = raw_alloc(n);
-#  if !defined(VP_NATIVE)
-  VP_BOUND(old <= C02_GROW_COPY, "old block larger than C02_GROW_COPY");
-  for (i = 0; i < C02_GROW_COPY; i++)
-    if (i < old && i < n)
-      ((unsigned char *)q)[i] = ((unsigned char *)p)[i];
-#  else
-  for (i = 0; i < old && i < n; i++)
-    ((unsigned char *)q)[i] = ((unsigned char *)p)[i];
-#  endif
-  raw_free(p);
+  vp_alloc_live++;
   return q;
-#endif
 }
+
+void c02_pool_teardown(void)
+{
+  size_t k;
+  for (k = 0; k < C02_POOL32; k++)
+    if (k >= c02_pool_next)
+      free(c02_pool[k]);
+}
+#endif
 
 int ares_library_init_mem(int flags, void *(*amalloc)(size_t size), void (*afree)(void *ptr),
                           void *(*arealloc)(void *ptr, size_t size));
 
 void vp_alloc_install(void)
 {
+#ifndef VP_NATIVE
+  size_t k;
+  for (k = 0; k < C02_POOL32; k++) {
+    c02_pool[k] = malloc(32);
+    __CPROVER_assume(c02_pool[k] != NULL);
+  }
+#endif
   ares_library_init_mem(0, vp_malloc, vp_free, vp_realloc);
 }
